@@ -26,10 +26,23 @@ def plan(tier, seed):
     n = 500 if tier == "quick" else 4000
     for k in range(n):
         specs.append({"klass": "random", "i": k, "backend": ("numpy", "numpy", "jax", "c")[k % 4], "fill": k >= 16, "remove_unused": k % 5 == 2, "ref_derivs": k % 3 == 1})
+    for j, h in enumerate(HAND):
+        for be in ("numpy", "jax", "c"):
+            for ru in (True, False):
+                specs.append({"klass": "missing_variable_read_only_by_unused_definition", "i": 100000 + 6 * j + 2 * ("numpy", "jax", "c").index(be) + int(ru), "text": h, "backend": be, "remove_unused": ru})
     for s in specs:
         s["prop"] = ID
         s.setdefault("soft_timeout", 240)
     return specs
+
+
+# sub-models whose missing variables are partly read by definitions nothing depends on: removing those definitions must not
+# change the layout of the missing-variables array
+HAND = [
+    "parameters(\"A\", a=1.5)\nstates(\"A\", x=1.0, y=2.0)\nparameters(\"B\", b=0.5)\nstates(\"B\", z=3.0)\n\nexpressions(\"A\")\ndx_dt = a * (y - x)\ndy_dt = z - y\n\nexpressions(\"B\")\nx_scaled = b * x\ndz_dt = y - b * z\n",
+    "parameters(\"A\", a=1.5, a2=0.25)\nstates(\"A\", x=1.0, y=2.0, v=-0.5)\nparameters(\"B\", b=0.5)\nstates(\"B\", z=3.0, q=0.75)\n\nexpressions(\"A\")\nunused_in_a = q * a2\ndx_dt = a * (y - x)\ndy_dt = z - y\ndv_dt = -v * a2 + z\n\n"
+    "expressions(\"B\")\nonly_for_monitoring = b * a2 + v\nx_scaled = b * x\ndz_dt = y - b * z\ndq_dt = -q + y * 0.5\n",
+]
 
 
 def sub_reference(ref, comp_names):
@@ -140,6 +153,11 @@ def run_case(spec, ctx):
             except Exception as exc:
                 out["violations"].append({"kind": "sub_model_exec_fails", "detail": {"which": label, "exc": f"{type(exc).__name__}: {exc}"[:200], "backend": be}})
                 continue
+            if set(m.names("missing")) == set(sref["missing"]) and dict(m.names("missing")) != dict(sub.missing_variables):
+                # the other sub-model's missing_values function is generated from sub.missing_variables: the receiving
+                # module must read the handed-over array in exactly that layout
+                out["violations"].append({"kind": "missing_layout_differs_from_ode_missing_variables", "detail": {"which": label, "component": cname, "module": m.names("missing"), "ode": dict(sub.missing_variables), "backend": be,
+                                                                                                          "remove_unused": bool(spec.get("remove_unused"))}})
             if set(m.names("state")) != set(sref["states"]) or set(m.names("missing")) != set(sref["missing"]):
                 out["violations"].append({"kind": "sub_model_maps_wrong", "detail": {"which": label, "states": sorted(m.names("state")), "missing": m.names("missing"), "expected_missing": sref["missing"]}})
                 continue
